@@ -114,6 +114,10 @@ DoCall ==
                \/ \E h2 \in Handles \ {h} :
                     /\ KindOf(h2) = "arr" /\ LenOf(h2) = n /\ IdsLeft >= n
                     /\ StartCall(C("zip", <<h, h2>>, <<TRUE, TRUE>>, NoneArg, <<>>, n, "arr"), <<"own", "own">>)
+               \* Clone::clone_from: h is overwritten with clones of h2
+               \/ \E h2 \in Handles \ {h} :
+                    /\ KindOf(h2) = "arr" /\ LenOf(h2) = n /\ IdsLeft >= n
+                    /\ StartCall(C("clone_from", <<h, h2>>, <<FALSE, FALSE>>, NoneArg, <<>>, n, "arr"), <<"ref", "ref">>)
          \/ /\ k = "iter"
             /\ \/ \E o \in IterRefOps : StartCall(C(o, <<h>>, <<FALSE>>, NoneArg, <<>>, n, "arr"), <<"ref">>)
                \/ \E a \in 0..(n + 1) : \E o \in {"nth", "nth_back"} :
@@ -135,10 +139,12 @@ DoDrop ==
     /\ UNCHANGED <<hist, nexth>>
 
 DoCb ==
-    /\ ~Idle /\ IsCbOp(op.name) /\ op.phase = "idle" /\ op.k < op.n /\ owed = <<>>
-    /\ IF op.name \in {"clone", "iter_clone"}
+    \* (clone_from: what the destination held may be dropped before, between or after the clones)
+    /\ ~Idle /\ IsCbOp(op.name) /\ op.phase = "idle" /\ op.k < op.n /\ (owed = <<>> \/ op.name \in CloneFromOps)
+    /\ IF op.name \in {"clone", "iter_clone"} \cup CloneFromOps
        THEN CloneStep(IF op.name = "clone" THEN op.srcs[1][op.k + 1]
-                      ELSE SetMin(SeqRange(op.srcs[1]) \ DOMAIN op.cmap), NewId)
+                      ELSE IF op.name = "clone_from" THEN op.srcs[2][op.k + 1]
+                      ELSE SetMin(SeqRange(CloneSrcSeq) \ DOMAIN op.cmap), NewId)
        ELSE Cb([k |-> op.k, idx |-> op.k, args |-> CbArgs(op.name, op.srcs, op.n, op.k), acc |-> op.acc,
                 pv |-> IF op.name = "zipx" THEN op.k ELSE -1])
     /\ UNCHANGED <<hist, nexth>>
@@ -165,7 +171,12 @@ DoRet ==
              IN /\ RetPlain([outs |-> outs, vals |-> e.vals, obs |-> <<>>, res |-> e.res, err |-> e.err,
                              dbg |-> "", dbgref |-> ""])
                 /\ nexth' = nexth + Len(outs)
-       \/ /\ IsCbOp(op.name) /\ op.k = op.n
+       \/ /\ op.name \in CloneFromOps /\ op.k = op.n
+          /\ RetCloneFrom([outs |-> <<>>, vals |-> <<>>, res |-> -1, err |-> FALSE,
+                           obs |-> <<[h |-> op.recv[1], items |-> CloneFromItems, len |-> -1, lo |-> -1, hi |-> -1],
+                                     [h |-> op.recv[2], items |-> op.srcs[2], len |-> -1, lo |-> -1, hi |-> -1]>>])
+          /\ UNCHANGED nexth
+       \/ /\ IsCbOp(op.name) /\ op.name \notin CloneFromOps /\ op.k = op.n
           /\ LET items == IF op.name = "iter_clone" THEN [i \in DOMAIN op.srcs[1] |-> op.cmap[op.srcs[1][i]]]
                           ELSE op.out
                  okind == CASE op.name = "iter_clone" -> "iter"
